@@ -1358,6 +1358,14 @@ def run_for(ex: Exec, node: ast.For, st: State):
         if dit is None or natural_sort(dit) in ("int", "bool", "real"):
             yield st0, ("raise", ExcVal("TypeError"))
             continue
+        if isinstance(dit, Opaque) and (dit.kind, "iter") in ex.db.opaque_ops:
+            # an abstract kind with declared iteration semantics (what its items are / TypeError when not iterable)
+            for st1, sq in ex.db.opaque_ops[(dit.kind, "iter")](ex, st0, dit):
+                if isinstance(sq, Exc):
+                    yield st1, ("raise", sq.exc)
+                else:
+                    yield from _cut_for(ex, node, st1, sq)
+            continue
         yield from _cut_for(ex, node, st0, dit)
 
 
@@ -1513,10 +1521,24 @@ def apply_contract(ex: Exec, st: State, f: FuncRef, node, c: Contract, args, kwa
         return
     if not c.returns and any("result" in (e if isinstance(e, str) else "") for _, e in c.ensures + [("", x) for x in (c.call_ensures or [])]):
         raise Unsupported(f"contract {c.key} is used at a call site, mentions 'result', but declares no 'returns' sort")
-    result = ex.db.make_value(ex, st, c.returns, "ret_" + c.qualname.split(".")[-1]) if c.returns else None
+    view = c.ensures if c.call_ensures is None else [(f"call{i}", e) for i, e in enumerate(c.call_ensures)]
+    result = None
+    if c.returns:
+        # "the result is this function of the arguments": the result IS that term (no fresh symbol + equation), so that
+        # identity-based reasoning about the returned object (unmodified(), `is`) sees one object
+        for nm, e in list(view):
+            m = re.fullmatch(r"\s*result == (uf\(.*\))\s*", e if isinstance(e, str) else "")
+            if m and parse_sort(c.returns) == parse_sort(ast.literal_eval(ast.parse(m.group(1), mode="eval").body.args[1])):
+                try:
+                    result = eval_term(ex, st, m.group(1), env)
+                    view = [(n2, e2) for n2, e2 in view if e2 is not e]
+                except Unsupported:
+                    result = None
+                break
+        if result is None:
+            result = ex.db.make_value(ex, st, c.returns, "ret_" + c.qualname.split(".")[-1])
     env2 = dict(env)
     env2["result"] = result
-    view = c.ensures if c.call_ensures is None else [(f"call{i}", e) for i, e in enumerate(c.call_ensures)]
     for name, e in view:
         t = eval_spec(ex, st, e, env2, what=f"{c.key}.{name}")
         tt = t.t if isinstance(t, SV) else t
@@ -1612,12 +1634,25 @@ def verify_function(db: ContractDB, c: Contract, case=None) -> FunctionResult:
         loop_map = {}
         by_header = {sp.header: sp for sp in c.loops if sp.header is not None}
         positional = [sp for sp in c.loops if sp.header is None]
+        matched = set()
         for i, n in enumerate(loops):
             hdr = ast.unparse(n.test if isinstance(n, ast.While) else n.iter)
             sp = by_header.get(hdr)
             if sp is None and i < len(c.loops) and c.loops[i].header is None:
                 sp = c.loops[i]
+            if sp is not None:
+                matched.add(id(sp))
             loop_map[id(n)] = (sp, i)
+        # a loop whose header text changed: fall back to the spec at the same position (if no other loop claimed it),
+        # with the header requirement dropped - the invariants then either still hold or fail as obligations, instead
+        # of the whole function becoming undecided
+        for i, n in enumerate(loops):
+            if loop_map[id(n)][0] is None and i < len(c.loops) and id(c.loops[i]) not in matched:
+                sp0 = c.loops[i]
+                sp = Loop(invariants=sp0.invariants, decreases=sp0.decreases, vars=sp0.vars, header=None, modifies=sp0.modifies,
+                          unroll=sp0.unroll, hints=sp0.hints, step=sp0.step)
+                matched.add(id(sp0))
+                loop_map[id(n)] = (sp, i)
 
         def loop_spec(n, st):
             sp = loop_map.get(id(n))
